@@ -421,7 +421,7 @@ func init() {
 			cs := dagCases(tier, seed, 40, 600)
 			for i := range cs {
 				if i%8 == 5 {
-					cs[i].S = map[string]string{"shape": []string{"long-election", "straggler-round"}[(i/8)%2]}
+					cs[i].S = map[string]string{"shape": []string{"long-election", "straggler-round", "bare-supermajority"}[(i/8)%3]}
 					cs[i].P["coin"] = 1
 					cs[i].P["n"] = 4
 					continue
